@@ -4,6 +4,7 @@ package innerring
 
 import (
 	"errors"
+	"time"
 
 	"github.com/nspcc-dev/neo-go/pkg/crypto/keys"
 	"go.uber.org/zap"
@@ -34,4 +35,55 @@ func VerifMembership(own *keys.PublicKey, ir, alpha keys.PublicKeys, failIR, fai
 	s := &Server{log: zap.NewNop()}
 	s.statusIndex = newInnerRingIndexer(verifFetcher{alpha, failAlpha}, verifFetcher{ir, failIR}, own, 0)
 	return s.IsAlphabet(), s.IsActive(), s.AlphabetIndex(), s.InnerRingIndex(), s.InnerRingSize()
+}
+
+// VerifMemberStep is one step of a history on ONE indexer instance (cache timeout one hour,
+// so that only Reset forces a refresh, as a chain restart does).
+type VerifMemberStep struct {
+	Reset             bool
+	IR, Alpha         keys.PublicKeys
+	FailIR, FailAlpha bool
+}
+
+// VerifMemberObs is what the Server getters answer after a step.
+type VerifMemberObs struct {
+	IsAlphabet, IsActive     bool
+	AlphaIdx, IRIdx, IRSize int
+}
+
+type verifMutFetcher struct {
+	keys *keys.PublicKeys
+	fail *bool
+}
+
+func (f verifMutFetcher) InnerRingKeys() (keys.PublicKeys, error) {
+	if *f.fail {
+		return nil, errors.New("verif: lookup failed")
+	}
+	return *f.keys, nil
+}
+
+func (f verifMutFetcher) Committee() (keys.PublicKeys, error) {
+	if *f.fail {
+		return nil, errors.New("verif: lookup failed")
+	}
+	return *f.keys, nil
+}
+
+// VerifMembershipSeq runs a history of lookups / resets on one Server + indexer.
+func VerifMembershipSeq(own *keys.PublicKey, steps []VerifMemberStep) []VerifMemberObs {
+	var ir, alpha keys.PublicKeys
+	var failIR, failAlpha bool
+	s := &Server{log: zap.NewNop()}
+	idx := newInnerRingIndexer(verifMutFetcher{&alpha, &failAlpha}, verifMutFetcher{&ir, &failIR}, own, time.Hour)
+	s.statusIndex = idx
+	var out []VerifMemberObs
+	for _, st := range steps {
+		if st.Reset {
+			idx.reset()
+		}
+		ir, alpha, failIR, failAlpha = st.IR, st.Alpha, st.FailIR, st.FailAlpha
+		out = append(out, VerifMemberObs{s.IsAlphabet(), s.IsActive(), s.AlphabetIndex(), s.InnerRingIndex(), s.InnerRingSize()})
+	}
+	return out
 }
